@@ -312,6 +312,54 @@ def r3(ctx) -> None:
     ctx.ob("C07-R3", "skewed-shape/amplitude", len(amp) == 1, f, amp[0] if amp else f.node, "scaled by the amplitude when one is given")
 
 
+def r3_frequencies(ctx) -> None:
+    """Damped oscillation: what the kernels receive as angular frequencies and rates."""
+    repo = ctx.repo
+    cm = ctx.fn(DOA, "DampedOscillationMegacomplex.calculate_matrix")
+    fl = lib.flow(cm, repo)
+    ax = cm.params()[3]
+    fr = [d for d in fl.defs_of("frequencies") if d.kind == "assign"]
+    ok = len(fr) == 1
+    if ok:
+        t = fl.term(fr[0].value, fr[0].stmt)
+        want = fl.term(ast.parse("np.array(self.frequencies) * 0.03 * 2 * np.pi", mode="eval").body, fr[0].stmt)
+        ok = t == want
+    ctx.ob("C07-R3", "oscillation/angular-frequency", ok, cm, fr[0].stmt if fr else cm.node,
+           "omega = 2 pi * 0.03 * wavenumber (cm^-1 to rad/ps), for the frequencies in declaration order", construct=lib.short(fr[0].stmt, 100) if fr else "def")
+    fm = [d for d in fl.defs_of("frequency_max") if d.kind == "assign"]
+    okm = len(fm) == 1 and fl.term(fm[0].value, fm[0].stmt) == fl.term(ast.parse("1 / (2 * 0.03 * delta_min)", mode="eval").body, fm[0].stmt)
+    dm = [d for d in fl.defs_of("delta_min") if d.kind == "assign"]
+    okd = False
+    trace = []
+    if len(dm) == 1:
+        v = fl.inline(dm[0].value, dm[0].stmt)
+        txt = norm(v).replace(" ", "")
+        # the vector of all consecutive steps, by name or written out
+        step_texts = (f"np.abs({ax}[1:]-{ax}[:-1])", f"np.abs(np.diff({ax}))", f"abs({ax}[1:]-{ax}[:-1])", f"np.diff({ax})")
+        for st_ in step_texts:
+            txt = txt.replace(st_, "STEPS")
+        for nm in {n.id for n in ast.walk(v) if isinstance(n, ast.Name)}:
+            ds = [d for d in fl.defs_of(nm) if d.kind == "assign"]
+            if len(ds) == 1 and norm(ds[0].value).replace(" ", "") in step_texts:
+                import re as _re
+                txt = _re.sub(rf"\b{nm}\b", "STEPS", txt)
+        okd = txt in ("STEPS[np.argmin(STEPS)]", "np.min(STEPS)", "STEPS.min()", "min(STEPS)", "np.amin(STEPS)")
+        trace.append(f"delta_min = {norm(v)}")
+    ctx.ob("C07-R3", "oscillation/folding-threshold-from-smallest-step", bool(okm) and okd, cm, dm[0].stmt if dm else cm.node,
+           "frequencies are folded only at the sampling limit of the *finest* step of the time axis, 1/(2*0.03*min(step)); taking "
+           "one particular step (the first) folds ordinary frequencies on non-equidistant axes", trace,
+           construct=lib.short(dm[0].stmt, 100) if dm else "def")
+    rt = [d for d in fl.defs_of("rates") if d.kind == "assign"]
+    ctx.ob("C07-R3", "oscillation/rates-as-declared", len(rt) == 1 and norm(rt[0].value) in ("np.array(self.rates)", "np.asarray(self.rates)"), cm,
+           rt[0].stmt if rt else cm.node, "the damping rates in declaration order")
+    ks = [c for c in lib.calls(cm) if norm(c.func).startswith("calculate_damped_oscillation_matrix")]
+    ctx.sites("C07-R3", "oscillation kernel calls", len(ks), 3)
+    for c in ks:
+        a = [norm(x) for x in c.args]
+        ctx.ob("C07-R3", f"oscillation/kernel-arguments:{norm(c.func).rsplit('_', 2)[-1]}@{len(a)}", a[1:3] == ["frequencies", "rates"] and a[-1] == ax, cm, c,
+               "(matrix, frequencies, rates, ..., time axis)", construct=lib.short(c, 120))
+
+
 def r4(ctx) -> None:
     repo = ctx.repo
     lib.check_no_loop_escape(ctx, "C07-R4", ("glotaran/builtin/megacomplexes/coherent_artifact/", "glotaran/builtin/megacomplexes/damped_oscillation/",
@@ -394,4 +442,4 @@ def check(ctx) -> None:
         g(ctx)
 
 
-check.groups = [r1, r2, r3, r4, r5]
+check.groups = [r1, r2, r3, r3_frequencies, r4, r5]
